@@ -85,7 +85,7 @@ def snapshot(w):
         td = e.task_dispatcher
         ts = []
         for t in w.timers(conn):
-            if w.is_heartbeat(t) and not w.backstop:
+            if w.is_heartbeat(t) and not (w.backstop or e.branch_metadata):
                 continue
             ts.append([round(t.deadline - now, 6), t.delay, simcore.timer_kind(t.callback), _closure_info(t.callback),
                        rank[t.arm_step], None if t.due_step is None else rank[t.due_step]])
@@ -109,7 +109,7 @@ def snapshot(w):
             "orphans": setlike(list(td.orphaned_responses.keys())),
             "orph_sched": td.handle_orphaned_responses_is_scheduled,
             "uptime_short": (now - td.startup_time) * 1000 < (td.orphaned_response_retention_ms or 0),
-            "hb": d.heartbeat_count % 60 if w.backstop else None,
+            "hb": d.heartbeat_count % 60 if (w.backstop or e.branch_metadata) else None,
             "calls": [rank[s] for cb, s in conn.pending_calls],
             "returns": [[r[0].routing_key, r[1].correlation_id, rank[r[3]]] for ch in conn.channels for r in ch.pending_returns],
         })
